@@ -809,6 +809,41 @@ def hConcurrent (_inp out : Json) : Except String Findings := do
   let panics : Int ← get out "panics"
   return spec #[] "C17.no-panic-under-concurrency" (panics == 0)
 
+/-! ### scenario: a sequence of reconcile steps on one evolving cluster, then quiescence -/
+deriving instance FromJson for Spec.C02.PodView
+
+structure ViewJ where
+  pods : List Spec.C02.PodView
+  nodes : List Node
+  eds : EDS
+  activeHash : String
+  ers : List ERS
+  deriving FromJson
+
+def hQuiescent (inp out : Json) : Except String Findings := do
+  let v : ViewJ ← get inp "view"
+  let conv : Bool ← get out "converged"
+  let rounds : Nat ← get out "rounds"
+  let lastEds : String := (out.getObjValAs? String "lastEdsKind").toOption.getD "ok"
+  let fs : Findings := #[]
+  -- the premise of C02 is that API calls succeed and the reconcile does not report an error: a canary
+  -- asking for more nodes than are eligible makes the EDS reconcile return an error (C15) and holds
+  -- the rollout; such configurations are counted (category) but not judged here
+  if lastEds != "ok" then return fs else
+  let fs := spec fs s!"C02.converges(within {rounds} rounds)" conv
+  if !conv then return fs else
+  let fs := spec fs "C02.fixpoint" (Spec.C02.fixpoint v.eds v.nodes v.pods)
+  let fs := spec fs "C02.live-template-active" (v.activeHash == v.eds.templateHash)
+  let fs := spec fs "C14.quiescent" (Spec.C02.statusQuiescent v.eds v.nodes v.pods)
+  return fs
+
+structure StepJ where
+  fn : String
+  op : String
+  «in» : Json
+  out : Json
+  deriving FromJson
+
 def handlers : List (String × (Json → Json → Except String Findings)) := [
   ("limits", hLimits),
   ("max_creation", hMaxCreation),
@@ -831,6 +866,28 @@ def handlers : List (String × (Json → Json → Except String Findings)) := [
   ("concurrent_reconcile", hConcurrent)
 ]
 
+/-- a scenario line carries the steps of one simulation; each step is checked by its own handler.
+Steps run under an injected fault keep their specification findings but not their DIFFs (the model
+describes the fault-free writes). -/
+def hScenario (_inp out : Json) : Except String Findings := do
+  let steps : List StepJ ← get out "steps"
+  let mut fs : Findings := #[]
+  let mut k := 0
+  for st in steps do
+    let h := if st.fn == "quiescent" then some hQuiescent else handlers.lookup st.fn
+    match h with
+    | none => fs := fs.push s!"DIFF step{k} unknown fn {st.fn}"
+    | some h =>
+      let faulted : Bool := (st.«in».getObjValAs? Bool "faulted").toOption.getD false
+      match h st.«in» st.out with
+      | .error e => fs := fs.push s!"DIFF step{k} bad-op {e}"
+      | .ok fsk =>
+        for f in fsk do
+          if !(faulted && f.startsWith "DIFF") then
+            fs := fs.push (f ++ s!" @step{k}[{st.op}]")
+    k := k + 1
+  return fs
+
 def handleLine (line : String) : String :=
   match Json.parse line with
   | .error e => s!"bad-op parse: {e}"
@@ -840,7 +897,7 @@ def handleLine (line : String) : String :=
       let id : Nat ← get j "id"
       let inp ← j.getObjVal? "in"
       let out ← j.getObjVal? "out"
-      match handlers.lookup fn with
+      match (if fn == "scenario" then some hScenario else handlers.lookup fn) with
       | none => throw s!"unknown fn {fn}"
       | some h =>
         let fs ← h inp out
